@@ -340,12 +340,38 @@ def check_wellformed(rep, binary, rng, airports, fields, count):
 def check_total(rep, binary, strings, kind, cname):
     """no string may panic"""
     key = "s" if kind == "source" else "pos"
+    # look-alikes of the strings themselves (other case, blanks around the reference) join the list: parsing is a
+    # function of the string, so every string must get the same answer whatever was parsed before it. The list is run
+    # in two processes, the second one in a scattered order, and the answers are compared string by string.
+    import random as _random
+    r2 = _random.Random(len(strings) * 7919 + sum(len(x) for x in strings[:50]))
+    extra = []
+    for x in strings:
+        if x and r2.random() < 0.15:
+            extra.append(r2.choice([x.lower(), x.upper(), x.swapcase(), " " + x, x + " ", x.replace("@", "@ ", 1)]))
+    strings = list(strings) + extra
     lines = [{key: s} for s in strings]
     log = drive(binary, "source", lines, timeout=3600)
     if len(log) != len(lines):
         raise Inconclusive("source driver dropped lines")
-    for s, res in zip(strings, log):
+    perm = list(range(len(lines)))
+    r2.shuffle(perm)
+    log_b = drive(binary, "source", [lines[i] for i in perm], timeout=3600)
+    if len(log_b) != len(lines):
+        raise Inconclusive("source driver dropped lines")
+    other = [None] * len(lines)
+    for j, i in enumerate(perm):
+        other[i] = log_b[j]
+    view = lambda x: (x.get("result"), json.dumps(x.get("address"), sort_keys=True), json.dumps(x.get("reference")), x.get("serial"), x.get("error"))
+    for i, (s, res) in enumerate(zip(strings, log)):
         rep.evaluations += 1
+        if res.get("result") != "panic" and other[i].get("result") != "panic" and view(res) != view(other[i]):
+            prev_a = strings[i - 1] if i else None
+            prev_b = strings[perm[perm.index(i) - 1]] if perm.index(i) else None
+            rep.violation(f"C16:depends-on-what-was-parsed-before:{kind}", f"{kind} string {s[:120]!r}: {view(res)} in one process (parsed after {str(prev_a)[:60]!r}), {view(other[i])} in another (after {str(prev_b)[:60]!r})",
+                          {"mode": "source-order", "lines": lines[:i + 1][-400:], "line": {key: s}})
+        else:
+            rep.cls("order-compared:two-processes-two-orders")
         if s:
             rep.hashes.add(hash((kind, s)))
         rep.cls(f"{cname}:{res['result']}")
@@ -471,13 +497,21 @@ def worker(args):
     rep.extra["mandatory"] = ["cli:usage-error(exit 2)", "wellformed:tcp", "wellformed:udp", "wellformed:ws", "wellformed:rtlsdr", "wellformed:short",
                               "toml:tcp", "toml:udp", "toml:websocket", "toml:rtlsdr", "position:airport", "position:latlon",
                               "mutated-fixed", "mutated-random", "random", "position-hostile", "serial-compared:string-vs-table",
-                              "serial-compared:two-processes", "serial-compared:asked-again-in-the-same-process", "serial-compared:same-endpoint-two-cases"]
+                              "serial-compared:two-processes", "serial-compared:asked-again-in-the-same-process", "serial-compared:same-endpoint-two-cases", "order-compared:two-processes-two-orders"]
     return rep.to_dict()
 
 
 def replay(binary, data):
     rep = Rep("C16")
     r = data["replay"]
+    if r.get("mode") == "source-order":
+        alone = drive(binary, "source", [r["line"]])[0]
+        after = drive(binary, "source", r["lines"])[-1]
+        rep.evaluations = 1
+        pick = lambda x: (x.get("result"), x.get("address"), x.get("reference"), x.get("serial"))
+        if pick(alone) != pick(after):
+            rep.violation("C16:depends-on-what-was-parsed-before", f"{r['line']}: {pick(alone)} alone, {pick(after)} after {len(r['lines']) - 1} other strings", r)
+        return rep.to_dict()
     if r.get("mode") == "source-history":
         log = drive(binary, "source", r["lines"])
         oks = [x for x in log if x.get("result") == "ok"]
